@@ -461,6 +461,9 @@ func (w *World) Quiet() bool {
 		if t.SimEventLen() > 0 {
 			return false
 		}
+		if t.Pieces.SimAnyBusy() {
+			return false // a hash is under way (it takes simulated time): its outcome is still to come
+		}
 		for _, p := range t.SimPeers() {
 			if p.SimPending() > 0 {
 				return false
